@@ -19,7 +19,9 @@ _SIMD = ['avx2_ROT32_eq_rotr', 'avx2_ROT24_eq_rotr', 'avx2_ROT16_eq_rotr', 'avx2
          'blake2b_chunks_of_compress_eq', 'generichash_of_compress_eq', 'kdf_blake2b_of_compress_eq', 'blake2b_avx2_chunks', 'blake2b_ssse3_chunks', 'blake2b_sse41_chunks',
          'generichash_avx2_spec', 'generichash_ssse3_spec', 'generichash_sse41_spec', 'kdf_blake2b_avx2_spec', 'driver_b2Chunks_no_disagree']
 THEOREMS = THEOREMS + vcore.theorems_in("SodiumModel/Properties/C04Simd.lean", _SIMD, "Sodium.C04Simd")
-IMPORTS = IMPORTS + ["SodiumModel.Properties.C04Simd"]
+IMPORTS = IMPORTS + ["SodiumModel.Properties.C04Simd", "SodiumModel.Properties.C04PolySse2"]
+# poly1305_sse2.c (the Poly1305 this host selects): two-lane 26-bit-limb Horner with r^2 / r^4, buffering, final combination = spec MAC for every key, message, chunking and prior state contents
+THEOREMS = THEOREMS + vcore.theorems_in("SodiumModel/Properties/C04PolySse2.lean", ['init_ext_spec', 'r_square_no_overflow', 'r_square_spec', 'r_limbs_spec', 'multipliers_ok', 'main_loop_lane', 'main_loop_no_overflow', 'reduce_no_overflow', 'main_loop_body_eq', 'tail_lane', 'first_block_lane', 'load_store_H', 'final_mul_spec', 'final_reduce_spec', 'pad_add_spec', 'blocks_horner_invariant', 'main_loop_horner', 'block_copy31_spec', 'last_block_spec', 'finish_ext_stages', 'finish_ext_spec', 'init_invariant', 'update_invariant', 'final_of_invariant', 'sse2_mac_eq_spec', 'sse2_mac_chunks', 'sse2_chunks_eq_oneshot', 'sse2_mac_junk_independent', 'sse2_eq_donna64', 'sse2_verify_spec', 'sse2_verify_accepts', 'sse2_mac_length'], "Sodium.C04PolySse2")
 
 
 def tie_b(ctx):
@@ -27,6 +29,7 @@ def tie_b(ctx):
     headers and the proofs re-checked against them if the text changed, (3) the hand-transcribed compress-*.c/h files are pinned by fingerprint"""
     import subprocess, sys, os
     vcore.simd_check(ctx, "blake2b", "simd_vectors.c", ["-msse2", "-mssse3", "-msse4.1", "-mavx2"], "SimdCheck.lean", via_stdin=False)
+    vcore.simd_check_script(ctx, "poly1305sse2")
     src = os.path.join(vcore.REPO, "src", "libsodium", "crypto_generichash", "blake2b", "ref")
     gen = lambda out: subprocess.run([sys.executable, os.path.join(vcore.VERIF, "tools", "gen_b2load.py"), src, out], capture_output=True, text=True)
     r = vcore.tie_b_regen(ctx, "BLAKE2b SIMD message loads (tools/gen_b2load.py)", gen, "SodiumModel/Model/Blake2bSimdLoad.lean", "SodiumModel.Properties.C04Simd",
